@@ -137,4 +137,49 @@ def tokenDecision (P : Policy) (audience : String) (keys : List AuthKey) (now : 
   else if !credentialIsSecure P cred.length a then .denied
   else keyLoop P audience now a.claims (keys.zip a.verifies)
 
+/-! ### authorized_keys.go : which lines of the file become authorised keys -/
+
+inductive KeyKind where
+  | rsa (bits : Nat)
+  | ecdsa
+  | ed25519
+  | other            -- any other ssh key type (ssh-dss, sk-…): keyIsSecure says no
+  deriving Repr, DecidableEq
+
+/-- one line of the file as `parseAuthorizedKeys` sees it after stripping a `#…` tail and white space:
+    `blank` = nothing left (empty / comment-only / commented-out key) -/
+structure KeyLine where
+  blank : Bool
+  kind : KeyKind
+  comment : String      -- strings.TrimSpace of the ssh comment field
+  deriving Repr, DecidableEq
+
+def keyIsSecure (minRSA : Nat) : KeyKind → Bool
+  | .rsa bits => bits ≥ minRSA
+  | .ecdsa => true
+  | .ed25519 => true
+  | .other => false
+
+/-- the authorised keys, in file order: non-blank lines with a secure key and a non-empty comment -/
+def authorizedKeysOf (minRSA : Nat) : List KeyLine → List AuthKey
+  | [] => []
+  | l :: rest =>
+    if l.blank then authorizedKeysOf minRSA rest
+    else if !keyIsSecure minRSA l.kind then authorizedKeysOf minRSA rest
+    else if l.comment = "" then authorizedKeysOf minRSA rest
+    else { comment := l.comment } :: authorizedKeysOf minRSA rest
+
+/-! ### engine.go applyAuthMiddleware : what each configured auth type leads to -/
+
+inductive AuthSetup where
+  | noAuth        -- `case "":` nothing installed
+  | tokenV2       -- middleware installed
+  | error         -- Configure fails (unknown type / unreadable or unparsable authorized_keys)
+  deriving Repr, DecidableEq
+
+def configureAuth (typ : String) (keysFileOK : Bool) : AuthSetup :=
+  if typ = "" then .noAuth
+  else if typ = "token_v2" then (if keysFileOK then .tokenV2 else .error)
+  else .error
+
 end Nuts.C04
